@@ -58,6 +58,7 @@ type Sim struct {
 	faultsOff  atomic.Bool
 	deadLabels map[string]bool
 	expectLeak bool
+	faultsHeld atomic.Bool
 	crashed    atomic.Bool   // the whole simulated process has crashed: nothing of it may run on
 	never      chan struct{} // never closed; created inside the current bubble
 	elapsed    time.Duration // simulated time consumed by earlier phases (bubbles)
@@ -123,10 +124,17 @@ func (s *Sim) Occur(key string) int {
 	return s.occur[key]
 }
 
+// OccurCount returns the current occurrence count of key without changing it.
+func (s *Sim) OccurCount(key string) int {
+	s.mu.Lock()
+	defer s.mu.Unlock()
+	return s.occur[key]
+}
+
 // MatchFault reports the fault rule of the given kind whose key matches and
 // whose Nth equals the occurrence number n, if any, and counts it as fired.
 func (s *Sim) MatchFault(kind, key string, n int) *Fault {
-	if s.faultsOff.Load() {
+	if s.faultsOff.Load() || s.faultsHeld.Load() {
 		return nil
 	}
 	for i := range s.Plan.Faults {
@@ -143,6 +151,13 @@ func (s *Sim) MatchFault(kind, key string, n int) *Fault {
 // StopFaults ends fault injection for the rest of the run (the "once faults
 // stop" part of a liveness or convergence oracle): MatchFault no longer fires.
 func (s *Sim) StopFaults() { s.faultsOff.Store(true) }
+
+// FaultsStopped reports whether StopFaults was called (or faults are suspended).
+func (s *Sim) FaultsStopped() bool { return s.faultsOff.Load() || s.faultsHeld.Load() }
+
+// HoldFaults suspends (true) or resumes (false) fault injection, for stretches
+// where the scheduler goroutine itself calls into the system under test.
+func (s *Sim) HoldFaults(v bool) { s.faultsHeld.Store(v) }
 
 // FaultsOfKind lists the plan's fault rules of one kind.
 func (s *Sim) FaultsOfKind(kind string) []Fault {
